@@ -1,6 +1,7 @@
 CONSTANTS
-  Workers <- MCNoWorkers
-  NTs <- MCNTs
+  Workers <- Workers_wall
+  NTs <- NTs_wall
+  ThreadNames <- Threads_wall
   WyFix = FALSE
   AllowSpurious = FALSE
 INIT Init_wall
